@@ -247,6 +247,10 @@ func TestVerifC17(t *testing.T) {
 		"profile-id=",
 		"apt=96",
 		"profile-id=2;profile-id=0;apt=97;apt=96",
+		// a blank directly behind '=' stays in the value: a side that trims it has to trim it on both sides
+		"profile-id= 2",
+		"profile= 1",
+		"profile-id=\t0",
 	}
 	if !c.Quick() {
 		mimes = append(mimes, "video/H265", "video/VP8", "video/vp8", "audio/pcma", "audio/G722",
